@@ -43,6 +43,10 @@ type Root struct {
 	subLock       sync.Mutex
 	excludeTime   bool
 	excludeInt64  bool
+
+	// implicitSchema is true when schema was not defined in an SDL but put
+	// together from the types named Query, Mutation, and Subscription.
+	implicitSchema bool
 }
 
 // NewRoot creates a new GraphQL schema root with a root resolver object. The
@@ -1148,9 +1152,18 @@ func (root *Root) AddEvent(id string, event interface{}) (cnt int, err error) {
 func (root *Root) assureSchema() {
 	if root.schema == nil {
 		root.schema = &Schema{Object: Object{fields: fieldList{dict: map[string]*FieldDef{}}}}
+		root.implicitSchema = true
+	}
+	if root.implicitSchema {
+		// The types for the operations may arrive with a later SDL than the
+		// one that caused the schema to be created so add what is missing
+		// each time.
 		for _, cap := range []string{"Query", "Mutation", "Subscription"} {
+			name := strings.ToLower(cap)
+			if root.schema.fields.get(name) != nil {
+				continue
+			}
 			if t := root.types.get(cap); t != nil {
-				name := strings.ToLower(cap)
 				_ = root.schema.fields.add(&FieldDef{Base: Base{N: name}, Type: t})
 			}
 		}
